@@ -315,26 +315,21 @@ func c17Scenarios() []pxScenario {
 }
 
 func TestC17(t *testing.T) {
-	em := NewEmitter()
-	defer em.Close()
-	scs := c17Scenarios()
-	for idx, sc := range scs {
-		if !want(idx) {
-			continue
-		}
+	var jobs []func(idx int, em *Emitter)
+	for _, sc := range c17Scenarios() {
+		sc := sc
 		kind := "proxy"
 		for _, tg := range sc.Tags {
 			if tg == "concurrent-cancel" {
 				kind = "proxy-loose" // faults and cancellation in one step: judged by the predicates alone
 			}
 		}
-		runPxScenario(t, idx, kind, sc, em)
+		jobs = append(jobs, func(idx int, em *Emitter) { runPxScenario(t, idx, kind, sc, em) })
 	}
 	// free-running stress with forged sources, judged by the source predicate
-	base := len(scs)
 	for i := 0; i < proxyFreeCount(); i++ {
-		if want(base + i) {
-			runProxyFree(t, base+i, 100+i, em)
-		}
+		i := i
+		jobs = append(jobs, func(idx int, em *Emitter) { runProxyFree(t, idx, 100+i, em) })
 	}
+	pxRunJobs(t, "TestC17", jobs)
 }
